@@ -21,6 +21,6 @@ MCAll == MCGate \cup MCRing
 Gate12 == [prog |-> << <<Gw(1), Gw(2)>>, <<Fl>> >>, n |-> 1]
 Gate21 == [prog |-> << <<Gw(1), Gw(2)>>, <<Gw(3)>>, <<Fl>> >>, n |-> 1]
 Ring21(n) == [prog |-> << <<Rw(1), Rw(2)>>, <<Rw(3)>>, <<Reg>> >>, n |-> n]
-MCQuick == {Gate12, Gate21, Gate111} \cup { Ring21(n) : n \in 1..3 } \cup { Ring13(n) : n \in 1..3 }
+MCQuick == {Gate12, Gate21} \cup { Ring21(n) : n \in 1..3 } \cup { Ring13(n) : n \in 2..3 }
 MCGateOverlap == {Gate21}
 =============================================================================
